@@ -95,12 +95,12 @@ def register(reg):
     pred("VHCT_Stops", "path",
          "all(path[k].children is not None and path[k].visited_times >= path[k].tau for k in range(len(path) - 1)) "
          "and (path[len(path) - 1].children is None or path[len(path) - 1].visited_times < path[len(path) - 1].tau)")
-    fn("VHCT.optTraverse", N=N, props="C01 C05 C06", params={}, returns="tuple[ref:$N,list[ref:$N]]",
+    fn("VHCT.optTraverse", N=N, props="C01 C04 C05 C06", params={}, returns="tuple[ref:$N,list[ref:$N]]",
        requires=INV, modifies=["*VHCT_node.tau"],
        ensures=[("taus", TAUS, "C06"),
                 ("path", "fresh(result[1]) and PathOK(self.partition, result[1])", "C05 C04"),
                 ("end", "result[0] is result[1][len(result[1]) - 1] and result[1][0] is self.partition.root", "C05"),
-                ("stops", "VHCT_Stops(result[1])", "C05 C06"),
+                ("stops", "VHCT_Stops(result[1])", "C04 C05 C06"),
                 ("greedy", "Greedy(result[1])", "C05")])
     DTI = ("dt", "delta_tilde == %s and delta_tilde > 0 and delta_tilde <= 0.5" % DTT)
     loop("VHCT.optTraverse", 0, props="C06", var="h",
@@ -114,7 +114,7 @@ def register(reg):
          invariants=[("taus", TAUS),
                      ("path", "fresh(path) and PathOK(self.partition, path) and path[len(path) - 1] is curr_node "
                               "and path[0] is self.partition.root"),
-                     ("passed", "all(path[k].children is not None and path[k].visited_times >= path[k].tau for k in range(len(path) - 1))"),
+                     ("passed", "all(path[k].children is not None and path[k].visited_times >= path[k].tau for k in range(len(path) - 1))", "C04 C05 C06"),
                      ("greedy", "Greedy(path)")])
     loop("VHCT.optTraverse", 3, props="C05", modifies=[],
          invariants=[("kids", "children is curr_node.children and children is not None"),
@@ -148,6 +148,16 @@ def register(reg):
                       ("end", "self.curr_node is self.path[len(self.path) - 1] and self.path[0] is self.partition.root", "C05"),
                       ("stops", "VHCT_Stops(self.path)", "C05 C06"),
                       ("greedy", "Greedy(self.path)", "C05"),
+                      ("result", "result is self.curr_node.c_point", "C01 C04")])
+    # get_last_point is pull(0): it rewrites the pending (path, curr_node) that the next receive_reward credits, so it must
+    # leave the path the selection rule determines (which is unique for a given state)
+    fn("VHCT.get_last_point", N=N, props="C01 C04 C05 C15", params={}, returns="list[real]",
+       requires=INV, modifies=["self.path", "self.curr_node", "*VHCT_node.tau"],
+       ensures=INV + [("taus", TAUS, "C06"),
+                      ("path", "defined(self.path) and defined(self.curr_node) and fresh(self.path) and PathOK(self.partition, self.path)", "C04 C05"),
+                      ("end", "self.curr_node is self.path[len(self.path) - 1] and self.path[0] is self.partition.root", "C05"),
+                      ("stops", "VHCT_Stops(self.path)", "C04 C05 C06"),
+                      ("greedy", "Greedy(self.path)", "C04 C05"),
                       ("result", "result is self.curr_node.c_point", "C01 C04")])
     DT0 = ("(1 if self.c1 * self.delta / tplus(old(self.iteration)) >= 1 else self.c1 * self.delta / tplus(old(self.iteration)))")
     UPD_MOD = ETG + ["*VHCT_node.u_value", "*VHCT_node.b_value", "*VHCT_node.mean_reward", "self.iteration",
